@@ -29,6 +29,7 @@ type finding struct {
 	Case   int        `json:"case"`
 	Family string     `json:"family,omitempty"`
 	Extra  string     `json:"extra,omitempty"`
+	Trig   []string   `json:"triggers,omitempty"`
 }
 
 func (f finding) key() string {
@@ -121,6 +122,7 @@ type diffOut struct {
 	Stats      map[string]int64
 	Nontrivial bool
 	MaxRatio   float64
+	Triggers   []string
 }
 
 func budgetFor(steps, plen int) int64 {
@@ -228,9 +230,11 @@ func diffCase(in caseInput, cfgs []config, o diffOpts) diffOut {
 		return out
 	}
 	out.Nontrivial = refNontrivial(p, ref)
+	out.Triggers = caseTriggers(p, ref)
 	budget := budgetFor(ref.Steps, len(p.Ins))
 	add := func(f finding) {
 		f.Prop = o.Prop
+		f.Trig = out.Triggers
 		out.Findings = append(out.Findings, f)
 	}
 	for _, c := range cfgs {
@@ -298,7 +302,7 @@ func diffCase(in caseInput, cfgs []config, o diffOpts) diffOut {
 				}
 			}
 			if fd != "" {
-				add(finding{Config: c, Class: "final-state", Detail: fd, Final: true, Step: -1})
+				add(finding{Config: c, Class: "final-state", Sub: explainFinal(p, ref, &obs), Detail: fd, Final: true, Step: -1})
 			}
 		}
 	}
@@ -325,4 +329,42 @@ func sortedKeys(m map[string]int64) []string {
 	}
 	sort.Strings(ks)
 	return ks
+}
+
+// explainFinal classifies a final-state mismatch: "stale-final" when every
+// wrong register / byte holds a value it had earlier in the reference run (an
+// update was lost or overwritten by an older one), otherwise "unexplained-final".
+func explainFinal(p rProg, ref *refState, o *observation) string {
+	regHist := map[int]map[int32]bool{}
+	for r := 1; r < 32; r++ {
+		regHist[r] = map[int32]bool{ref.InitRegs[r]: true}
+	}
+	memHist := map[int32]map[int8]bool{}
+	for _, t := range ref.Trace {
+		in := p.Ins[t.Idx]
+		if t.Res.WroteReg && in.Rd != 0 {
+			regHist[in.Rd][t.Res.Val] = true
+		}
+		for i, v := range t.Res.Store {
+			a := t.Res.Addr + int32(i)
+			if memHist[a] == nil {
+				memHist[a] = map[int8]bool{ref.InitMem[a]: true}
+			}
+			memHist[a][v] = true
+		}
+	}
+	for r := 1; r < 32; r++ {
+		if o.Regs[r] != ref.Regs[r] && !regHist[r][o.Regs[r]] {
+			return "unexplained-final"
+		}
+	}
+	for i := range ref.Mem {
+		if i < len(o.Mem) && o.Mem[i] != ref.Mem[i] {
+			h := memHist[int32(i)]
+			if h == nil || !h[o.Mem[i]] {
+				return "unexplained-final"
+			}
+		}
+	}
+	return "stale-final"
 }
